@@ -5,7 +5,7 @@ for faults and crash points). Generated from /repo's current working tree at eve
 /repo itself is never written."""
 import glob, json, os, re, sys
 
-REPO = "/repo"
+REPO = os.environ.get("VERIF_REPO", "/repo")
 OUT = sys.argv[1] if len(sys.argv) > 1 else "/verif/.build/overlay19"
 FUNCS = "ReadFile|RemoveAll|OpenFile|MkdirTemp|MkdirAll|Rename|WriteFile|Chmod|Remove|Open|Stat|ReadDir|Lstat|CreateTemp"
 SIMFS = "github.com/conduitio/conduit/pkg/foundation/simfs"
